@@ -422,6 +422,7 @@ func (c *ctxT) depDir(mod string) string {
 func extractC09(c *ctxT) {
 	var methods []c09Method
 	var helpers []c09Helper
+	var runFacts []c09RunFacts
 	var sb strings.Builder
 	sb.WriteString("namespace FxVerif.Gen.C09\n\n")
 	sb.WriteString(`structure Method where
@@ -597,6 +598,7 @@ structure Dispatcher where
 			if run := method(m.Type, "Run"); run != nil && run.Body != nil {
 				m.Where = c.pos(run)
 				c.c09AnalyzeRun(&m, run)
+				runFacts = append(runFacts, c.c09Run(pk.name, m.AbiName, run, decls))
 				for _, k := range m.KeeperInside {
 					m.LogsInside += helperLogs[k]
 				}
@@ -755,6 +757,7 @@ structure Dispatcher where
 		sb.WriteString("\n")
 	}
 	sb.WriteString("]\n\n")
+	sb.WriteString(c09RunFactsLean(runFacts))
 
 	// PackRetErrV2 / PackRetError: do they hand the error back as second result?
 	packOk := map[string]bool{}
@@ -870,6 +873,7 @@ end FxVerif.Gen.C09
 	c.write("C09.lean", sb.String())
 	c.facts["C09.methods"] = methods
 	c.facts["C09.helpers"] = helpers
+	c.facts["C09.runFacts"] = runFacts
 	c.facts["C09.dispatchers"] = disps
 	c.facts["C09.forkReadonlyArg"] = kinds
 	c.facts["C09.forkDir"] = forkNote
